@@ -253,7 +253,11 @@ CORPUS = {
         B("output opened for append", "R15.3", (RUNNER, 'file = h5py.File(file_path, "x")', 'file = h5py.File(file_path, "a")')),
         B("interrupt breaks without cancelling", "R15.4", (RUNNER, '                        self.logger.warning(msg.format("Cancelling"))\n                        cancelled = True\n                        break\n            if save', '                        self.logger.warning(msg.format("Cancelling"))\n                        break\n            if save')),
         B("partial frames are kept", "R15.5", (RUNNER, "            del self.time_step_group[name]\n            raise", "            raise")),
-        B("cancelled run returns no solution", "R15.4", (RUNNER, "        return True\n\n    def _run_stage", "        return success\n\n    def _run_stage")),
+        # `return success` alone is an equivalent mutant (success is True whenever the recorded stage is entered): the path-based rule
+        # it was written for alarmed on it, the trace predicates rightly do not.  The breaking variant returns the recorded stage's result.
+        E("run() returns the (always true) thermalisation flag", (RUNNER, "        return True\n\n    def _run_stage", "        return success\n\n    def _run_stage")),
+        B("cancelled run returns no solution", "R15.4", (RUNNER, "            self._run_stage(\n                \"Simulating\",", "            success = self._run_stage(\n                \"Simulating\","),
+          (RUNNER, "        return True\n\n    def _run_stage", "        return success\n\n    def _run_stage")),
         B("name clash retries the same name", "R15.3", (RUNNER, "                if serial_number is None:\n                    serial_number = 1\n                else:\n                    serial_number += 1\n                continue", "                continue")),
         E("release spelled with a local", (RUNNER, "                    file.close()\n                    os.remove(file_path)\n", "                    created = file_path\n                    file.close()\n                    os.remove(file_path)\n")),
         E("cleanup handler catches Exception and BaseException separately", (RUNNER, "        except BaseException:\n            # Never leave a partially written frame in the output file.\n            del self.time_step_group[name]\n            raise", "        except BaseException:\n            # Never leave a partially written frame in the output file.\n            del self.time_step_group[name]\n            raise\n        else:\n            pass")),
